@@ -262,8 +262,27 @@ class ReadsStream(Stream):
     ]
 
     def cases(self, rng, tier):
+        if tier == "thorough":
+            # exhaustive small space: every op sequence up to length 2 over the full alphabet and of
+            # length 3 over a core alphabet x limits around the data length x is_max x readinto x scripts
+            import itertools
+
+            data = b"ab\ncd"
+            full = ["r1", "r2", "r100", "a", "l", "n", "L", "i3", "x"]
+            core = ["r2", "a", "l", "i3"]
+            seqs = [list(t) for n in (1, 2) for t in itertools.product(full, repeat=n)] + [list(t) for t in itertools.product(core, repeat=3)]
+            scripts = [[], ["g1"] * 8, ["g2", "e"], ["r"], ["g1", "r", "g3"]]
+            for limit in (0, 3, 5, 7):
+                for mx in (False, True):
+                    for ri in (False, True):
+                        for script in scripts:
+                            for ops in seqs:
+                                yield {"data": hx(data), "script": script, "exc": "OSError", "limit": limit, "max": mx, "ri": ri, "ops": ops}
         while True:
             yield gen_case(rng, wrapped=False)
+
+    def exhaustive(self, tier):
+        return tier == "thorough"  # the small space above is enumerated completely before the random cases
 
     def _run(self, case):
         data, u, s = build(case)
